@@ -300,6 +300,95 @@ func scenarioStop2(rounds int) wRes {
 	return wRes{Scenario: "stop2", Ok: true}
 }
 
+// Sends arriving all the time while the pool is stopped and started again and again: "Send/Stop/Run in
+// any order and concurrency neither panic nor deadlock", and a job accepted while running is executed
+// (exactly once) or given up by a Stop, never executed twice
+func scenarioSendVsStop(d time.Duration) wRes {
+	ctx := context.Background()
+	c := &counter{n: map[int]int{}}
+	p := New(Options{NumWorkers: 2, SendDuration: 10 * time.Microsecond})
+	p.Run(ctx)
+	var stop atomic.Bool
+	var wg sync.WaitGroup
+	var ids atomic.Int64
+	panics := make(chan string, 32)
+	for i := 0; i < 8; i++ {
+		wg.Add(1)
+		go func() {
+			defer wg.Done()
+			defer func() {
+				if r := recover(); r != nil {
+					panics <- fmt.Sprintf("Send: %v", r)
+				}
+			}()
+			for !stop.Load() {
+				p.Send(ctx, c.job(int(ids.Add(1)), nil))
+			}
+		}()
+	}
+	res := wRes{Scenario: "sendstop", Ok: true}
+	func() {
+		defer func() {
+			if r := recover(); r != nil {
+				res = wRes{Scenario: "sendstop", Ok: false, What: fmt.Sprintf("panic in Stop/Run while Sends are arriving: %v", r)}
+			}
+		}()
+		deadline := time.Now().Add(d)
+		for time.Now().Before(deadline) {
+			done := make(chan struct{})
+			var pv any
+			go func() {
+				defer close(done)
+				defer func() { pv = recover() }()
+				p.Stop()
+				p.Run(ctx)
+			}()
+			select {
+			case <-done:
+				if pv != nil {
+					panic(pv)
+				}
+			case <-time.After(5 * time.Second):
+				res = wRes{Scenario: "sendstop", Ok: false, What: "Stop/Run did not return while Sends are arriving (deadlock)"}
+				return
+			}
+		}
+	}()
+	stop.Store(true)
+	fin := make(chan struct{})
+	go func() { wg.Wait(); close(fin) }()
+	select {
+	case <-fin:
+	case <-time.After(5 * time.Second):
+		if res.Ok {
+			res = wRes{Scenario: "sendstop", Ok: false, What: "a Send never returned"}
+		}
+		return res
+	}
+	select {
+	case m := <-panics:
+		if res.Ok {
+			res = wRes{Scenario: "sendstop", Ok: false, What: "panic in " + m}
+		}
+	default:
+	}
+	if res.Ok {
+		func() {
+			defer func() { recover() }()
+			p.Stop()
+		}()
+		c.mu.Lock()
+		for id, n := range c.n {
+			if n > 1 {
+				res = wRes{Scenario: "sendstop", Ok: false, What: fmt.Sprintf("job %d was executed %d times", id, n)}
+				break
+			}
+		}
+		c.mu.Unlock()
+	}
+	return res
+}
+
 // a second Stop called while the first is still waiting for an in-flight job: when EITHER returns, no
 // job may still be running ("Stop returns after in-flight jobs have finished")
 func scenarioStopWait() wRes {
@@ -398,6 +487,14 @@ func TestVerifC16(t *testing.T) {
 			flush(guarded("stress", func() wRes { return scenarioStress(seed+uint64(i), 2+i%5, 20+i%30, 1+i%3) }))
 			n++
 		}
+	}
+	if only == "" || only == "sendstop" {
+		d := 300 * time.Millisecond
+		if thorough {
+			d = 3 * time.Second
+		}
+		flush(guarded("sendstop", func() wRes { return scenarioSendVsStop(d) }))
+		n++
 	}
 	if only == "" || only == "stopwait" {
 		reps := 3
